@@ -41,16 +41,35 @@ ReplicateBeforeReplace(O) ==
   LET E == Expected(O)
   IN \A a, b \in 1..Len(E) : (E[a].name = "replicate" /\ E[b].name \in {"replace", "find"}) => a < b
 
+\* What is demanded of the recorded calls: the same calls as Expected(O) (each kind of call as often, loads and saves of
+\* the same files), the input loaded first, the output saved last, every replication before the search / replacement
+\* and the explicit replication before the one for the minimum-image cutoff, the unit-cell file loaded before anything
+\* that depends on the cell, the pattern files loaded before they are used; every option value in the call it names.
+\* (The order of independent calls - e.g. loading the patterns before or after replicating - is left open.)
+Sel(cs, nm) == SelectSeq(cs, LAMBDA c : c.name = nm)
+Idx(cs, nm, what) == {n \in 1..Len(cs) : cs[n].name = nm /\ (what = "*" \/ cs[n].what = what)}
+Before(A, B) == \A a \in A, b \in B : a < b
+O_atol(O) == O.atol
+Range(f) == {f[x] : x \in DOMAIN f}
 JudgeCli(e) ==
   LET E == Expected(e.O)
+      cs == e.calls
+      kinds == {<<E[n].name, E[n].what>> : n \in 1..Len(E)} \cup {<<cs[n].name, cs[n].what>> : n \in 1..Len(cs)}
+      work == Idx(cs, "replace", "*") \cup Idx(cs, "find", "*")
+      reps == Sel(cs, "replicate")   Ereps == Sel(E, "replicate")
   IN IF e.exc # "none" THEN "no-exception"
      ELSE IF e.exit # 0 THEN "exit-status"
-     ELSE IF [n \in 1..Len(e.calls) |-> e.calls[n].name] # [n \in 1..Len(E) |-> E[n].name] THEN "call-sequence"
-     ELSE IF \E n \in 1..Len(E) : e.calls[n].what # E[n].what THEN "files-loaded-and-saved"
-     ELSE IF \E n \in 1..Len(E) : E[n].name = "replicate" /\ e.calls[n].dims # E[n].dims THEN "replication-factors"
-     ELSE IF \E n \in 1..Len(E) : E[n].name \in {"replace", "find"} /\ e.calls[n].atol # E[n].atol THEN "tolerance-option"
-     ELSE IF \E n \in 1..Len(E) : E[n].name = "replace" /\ e.calls[n].fn * E[n].fd # E[n].fn * e.calls[n].fd THEN "replacement-fraction-option"
-     ELSE IF \E n \in 1..Len(E) : E[n].name = "replace" /\ e.calls[n].hints # E[n].hints THEN "axis-hint-options"
+     ELSE IF \E k \in kinds : Cardinality(Idx(cs, k[1], k[2])) # Cardinality(Idx(E, k[1], k[2])) THEN
+             (IF \E k \in kinds : k[1] \in {"load", "save"} /\ Cardinality(Idx(cs, k[1], k[2])) # Cardinality(Idx(E, k[1], k[2]))
+              THEN (IF [n \in 1..Len(cs) |-> cs[n].name] = [n \in 1..Len(E) |-> E[n].name] THEN "files-loaded-and-saved" ELSE "call-sequence")
+              ELSE "call-sequence")
+     ELSE IF cs[1].name # "load" \/ cs[1].what # "input" \/ cs[Len(cs)].name # "save" THEN "call-sequence"
+     ELSE IF ~Before(Idx(cs, "replicate", "*"), work) \/ ~Before(Idx(cs, "load", "uc"), Idx(cs, "replicate", "*") \cup work)
+             \/ ~Before(Idx(cs, "load", "find") \cup Idx(cs, "load", "replace"), work) THEN "call-sequence"
+     ELSE IF [n \in 1..Len(reps) |-> reps[n].dims] # [n \in 1..Len(Ereps) |-> Ereps[n].dims] THEN "replication-factors"
+     ELSE IF \E c \in Range(cs) : c.name \in {"replace", "find"} /\ c.atol # O_atol(e.O) THEN "tolerance-option"
+     ELSE IF \E c \in Range(cs) : c.name = "replace" /\ c.fn * e.O.fd # e.O.fn * c.fd THEN "replacement-fraction-option"
+     ELSE IF \E c \in Range(cs) : c.name = "replace" /\ c.hints # e.O.hints THEN "axis-hint-options"
      ELSE IF e.charges # "ok" THEN "charge-file"
      ELSE IF e.same # "yes" THEN "output-equals-api-pipeline"
      ELSE IF e.O.find = "yes" /\ e.O.replace = "no" /\ e.findout # "yes" THEN "find-only-reports-api-matches-and-writes-structure-unmodified"
